@@ -72,6 +72,16 @@ impl C16 {
                     v.push(s);
                 }
             }
+            // polluters and their probes: a program that modifies in place every string / array it can get hold of
+            // (results of builtins, literals), and the plain program whose rendering would change if any of those
+            // objects were shared between evaluations
+            for src in ["type(1)", "type(1.5)", "type(ja)", "type(\"a\")", "type([1])", "type(null)", "type(functie() { 1 })", "string(12)", "string(ja)", "string(1.5)", "string(null)", "\"abc\"", "\"abc\" + \"def\"", "string(\"abc\")"] {
+                v.push(format!("stel t = {}; t[0] = \"#\"; t", src));
+                v.push(src.to_string());
+                v.push(format!("stel t = {}; t += \"!\"; print(t); t[1] = \"%\"; [t, {}]", src, src));
+            }
+            v.push("stel a = [1, 2, [3]]; a[0] = 9; a[2][0] = a; a[1]".to_string());
+            v.push("[1, 2, [3]]".to_string());
             v.push("stel i = 0; zolang ja { i += 1 }".to_string());
             v.push("1152921504606846975 + 1".to_string());
             self.batch = Some(v);
